@@ -188,3 +188,61 @@ def clade_case(rng, min_o=6, max_o=8, max_s=3, nfam=4, unordered=True, costs=Non
     syn = clade_syntenies(rng, oshape, nfam, unordered)
     O = fill_object(oshape, iter([{"s": s, "f": f} for s, f in zip(sps, syn)]))
     return {"S": S, "O": O, "costs": costs or rand_costs(rng, plain=False)}
+
+
+def sibling_inherit_case(rng, costs=None, small=False):
+    """Unordered inputs built around the pattern that exercises the decoder's handling of INHERIT
+    siblings: a node P whose two children L, R are both internal; a family private to the leaves of
+    one child (gained there); families shared between each child and an outgroup leaf but absent
+    from the other child (so each child may inherit P's content and lose later).  Randomised:
+    sizes of L and R, order of the children, extra wrapping levels above P, extra random families,
+    leaf species, and costs among tie-prone vectors."""
+    S = rand_shape(rng, rng.randint(1, 4))
+    nl, nr = (2, 2) if small else (rng.randint(2, 3), rng.randint(2, 3))
+    G, F1, F2 = 0, 1, 2
+    nextra = rng.randint(0, 1) if small else rng.randint(0, 2)
+    def leaf(fams):
+        fams = set(fams)
+        for x in range(3, 3 + nextra):
+            if rng.random() < 0.3:
+                fams.add(x)
+        return {"s": None, "f": sorted(fams)}
+    priv_side = rng.choice(["L", "R", "both"])
+    Ls = [leaf(([G] if priv_side in ("L", "both") else []) + [F2]) for _ in range(nl)]
+    Rs = [leaf(([G + 10] if priv_side in ("R", "both") else []) + [F1]) for _ in range(nr)]
+    # make sure the private family's LCA is L (resp. R): at least the two outermost leaves carry it
+    def nest(ls):
+        t = ls[0]
+        for x in ls[1:]:
+            t = [t, x] if rng.random() < 0.5 else [x, t]
+        return t
+    L, R = nest(Ls), nest(Rs)
+    P = [L, R] if rng.random() < 0.5 else [R, L]
+    out = leaf([F1, F2])
+    tree = [P, out] if rng.random() < 0.5 else [out, P]
+    for _ in range(rng.randint(0, 1) if small else rng.randint(0, 2)):
+        extra = leaf(rng.sample([F1, F2], rng.randint(1, 2)))
+        tree = [tree, extra] if rng.random() < 0.5 else [extra, tree]
+    # compact family ids, assign species
+    ids = {}
+    lv = leaf_paths(S)
+    def fix(t):
+        if isinstance(t, dict):
+            t["f"] = sorted(ids.setdefault(f, len(ids)) for f in t["f"])
+            t["s"] = rng.choice(lv)
+            return t
+        return [fix(c) for c in t]
+    tree = fix(tree)
+    if costs is None:
+        k = rng.random()
+        if k < 0.4:
+            costs = {"spe": 0, "dup": 1, "hgt": 1, "floss": 1, "sloss": 1}
+        elif k < 0.6:
+            costs = {"spe": 0, "dup": 1, "hgt": rng.choice([1, 2, "inf"]), "floss": 1, "sloss": 0}
+        elif k < 0.8:
+            costs = {"spe": 0, "dup": rng.randint(1, 2), "hgt": rng.choice([1, 2, 3]), "floss": rng.randint(1, 2),
+                     "sloss": rng.randint(1, 2)}
+        else:
+            costs = rand_costs(rng, plain=False)
+    # "only": run the unordered solvers (and the cheap plain ones) on it; the ordered DP over 2^families masks is slow here
+    return {"S": S, "O": tree, "costs": costs, "only": "unordered"}
